@@ -1,5 +1,5 @@
 SPECIFICATION Spec
-CONSTANTS MaxFlow = 3 MaxVals = 3
+CONSTANTS MaxFlow = 3 MaxVals = 4
 INVARIANT ProtocolOk
 INVARIANT ExpectedYields
 INVARIANT AtMostOneOpen
